@@ -285,15 +285,30 @@ def mutants(M, pieces):
     m.append({"p": "directive", "name": "zzBadHook", "def": {"args": {}, "locations": ["FIELD_DEFINITION"]}})
     yield "non_awaitable_directive_hook", "on_pre_output_coercion", False, m, {"bad_hook": ["zzBadHook", "on_pre_output_coercion"]}
 
+    m = mk()
+    m.append({"p": "directive", "name": "zzBadHook", "def": {"args": {}, "locations": ["FIELD_DEFINITION"]}})
+    yield "non_awaitable_directive_hook", "sync_wrapper_around_coroutine", False, m, {"bad_hook": ["zzBadHook", "on_field_execution", "wrapped"]}
+    m = mk()
+    m.append({"p": "directive", "name": "zzBadHook", "def": {"args": {}, "locations": ["FIELD_DEFINITION"]}})
+    yield "non_awaitable_directive_hook", "staticmethod_plain_function", False, m, {"bad_hook": ["zzBadHook", "on_field_execution", "static"]}
+
     # ---- syntax
     for cls, edit in (("stray_closing_brace", lambda t: t + "\n}\n"), ("leading_brace", lambda t: "{ " + t), ("unterminated_string", lambda t: t + '\n"unterminated'), ("dangling_keyword", lambda t: t + "\ntype\n"),
-                      ("double_colon", lambda t: t.replace(": ", ":: ", 1)), ("stray_at", lambda t: t + "\n@@\n"), ("empty_braces", lambda t: t + "\ntype ZzE { }\n")):
+                      ("double_colon", lambda t: t.replace(": ", ":: ", 1)), ("stray_at", lambda t: t + "\n@@\n"), ("empty_braces", lambda t: t + "\ntype ZzE { }\n"),
+                      ("empty_braces_interface", None), ("empty_braces_extend_type", None), ("empty_braces_input", None), ("empty_braces_enum", None), ("empty_arguments", None), ("empty_union", None)):
         yield "syntax_error", cls, False, mk(), {"edit": cls}
 
 
 SYNTAX_EDITS = {
     "stray_closing_brace": lambda t: t + "\n}\n", "leading_brace": lambda t: "{ " + t, "unterminated_string": lambda t: t + '\n"unterminated',
     "dangling_keyword": lambda t: t + "\ntype\n", "double_colon": lambda t: t.replace(": ", ":: ", 1), "stray_at": lambda t: t + "\n@@\n", "empty_braces": lambda t: t + "\ntype ZzE { }\n",
+    # empty braces / parentheses are not allowed anywhere in the type-system grammar
+    "empty_braces_interface": lambda t: t + "\ninterface ZzI { }\n",
+    "empty_braces_extend_type": lambda t: t + "\nextend type Query { }\n",
+    "empty_braces_input": lambda t: t + "\ninput ZzIn { }\n",
+    "empty_braces_enum": lambda t: t + "\nenum ZzEn { }\n",
+    "empty_arguments": lambda t: t + "\ntype ZzA { a(): Int }\n",
+    "empty_union": lambda t: t + "\nunion ZzU =\n",
 }
 
 
@@ -332,7 +347,23 @@ def attempt(spec):
         for n in spec["directive_names"]:
             if extra.get("bad_hook") and extra["bad_hook"][0] == n:
                 hook = extra["bad_hook"][1]
-                Directive(n, schema_name=name)(type("D_bad", (), {hook: lambda self, *a, **k: None}))
+                how_bad = extra["bad_hook"][2] if len(extra["bad_hook"]) > 2 else "plain"
+                if how_bad == "wrapped":
+                    import functools
+
+                    async def _inner(self, *a, **k):
+                        return None
+
+                    @functools.wraps(_inner)
+                    def _sync(self, *a, **k):  # plain function that merely *looks* like the coroutine it wraps
+                        return 1
+
+                    impl = type("D_bad", (), {hook: _sync})
+                elif how_bad == "static":
+                    impl = type("D_bad", (), {hook: staticmethod(lambda *a, **k: None)})
+                else:
+                    impl = type("D_bad", (), {hook: lambda self, *a, **k: None})
+                Directive(n, schema_name=name)(impl)
             else:
                 Directive(n, schema_name=name)(type("D_" + n, (), {}))
         ctx = "\nrewrite=%s site=%s via %s\nSDL:\n%s" % (spec["rewrite"], spec["site_class"], how, text)
